@@ -257,6 +257,70 @@ def npAdd (a b : PV) (w : W) : PV :=
     else err "ValueError"
   | _, _ => err "TypeError"
 
+/-- `x.astype(dt, copy=False)` with a dtype VALUE (`min_safe_uint(n)`); the object dtype is outside the model -/
+def astypeD (a d : PV) : PV :=
+  match d with
+  | dtype (some w) => astype a w
+  | err e => err e
+  | _ => err "TypeError"
+
+/-- `np.add(x, y, dtype=dt)` with a dtype value -/
+def npAddD (a b d : PV) : PV :=
+  match d with
+  | dtype (some w) => npAdd a b w
+  | err e => err e
+  | _ => err "TypeError"
+
+/-- `x[:-1]` of a 1-D array (a view: same dtype) -/
+def sliceInit : PV → PV
+  | arr w xs => arr w xs.dropLast
+  | err e => err e
+  | _ => err "TypeError"
+
+/-- `x.item(-1)`: the last element as a Python int -/
+def itemLast : PV → PV
+  | arr _ xs => (match xs.getLast? with | some v => int v | none => err "IndexError")
+  | err e => err e
+  | _ => err "TypeError"
+
+/-- `x[:-1] = y`: array assignment casts to the dtype of `x` (silent wrap-around); shapes must agree -/
+def setInit (a b : PV) : PV :=
+  match a, b with
+  | err e, _ => err e
+  | _, err e => err e
+  | arr w xs, arr _ ys =>
+    if ys.length + 1 = xs.length then arr w (ys.map (wrap w) ++ xs.drop ys.length) else err "ValueError"
+  | _, _ => err "TypeError"
+
+/-- `x[-1] = n` with a Python int: NumPy 2 raises `OverflowError` when the value does not fit -/
+def setLast (a v : PV) : PV :=
+  match a, v with
+  | err e, _ => err e
+  | _, err e => err e
+  | arr w xs, int i =>
+    if xs = [] then err "IndexError"
+    else if 0 ≤ i ∧ i < (2 ^ w.bits : Nat) then arr w (xs.dropLast ++ [i.toNat]) else err "OverflowError"
+  | _, _ => err "TypeError"
+
+/-- `x[:-1] += y`: in-place addition keeps the dtype of `x` (unsigned → unsigned is a same-kind cast): wraps -/
+def iaddInit (a b : PV) : PV :=
+  match a, b with
+  | err e, _ => err e
+  | _, err e => err e
+  | arr w xs, arr _ ys =>
+    if ys.length + 1 = xs.length then
+      arr w (List.zipWith (fun x y => wrap w (x + y)) xs.dropLast ys ++ xs.drop ys.length)
+    else err "ValueError"
+  | _, _ => err "TypeError"
+
+/-- `list.extend` on lists of ints (`arr .big`) -/
+def listExtend (a b : PV) : PV :=
+  match a, b with
+  | err e, _ => err e
+  | _, err e => err e
+  | arr w xs, arr _ ys => arr w (xs ++ ys)
+  | _, _ => err "TypeError"
+
 /-- `boolarray.view(np.uint8)` -/
 def viewU8 : PV → PV
   | barr bs => arr .u8 (bs.map (fun b => if b then 1 else 0))
